@@ -74,6 +74,17 @@ def _case(draw):
                     if others:
                         r["additional_bindings"] = [dict({v: u}, **({"body": b} if b else {})) for v, u, b in others]
                 rules.append(r)
+    if rules and draw(st.integers(0, 3)) == 0:
+        # a selector listed twice (a generic block followed by an override): the last rule is the one in force
+        k = draw(st.integers(0, len(rules) - 1))
+        sel = rules[k]["selector"]
+        alts = [t for t in RULE_TEMPLATES[sel] if t[1] != next(v for kk, v in rules[k].items() if kk in ("get", "post", "put", "patch", "delete"))]
+        if alts:
+            verb, uri, body = draw(st.sampled_from(alts))
+            early = {"selector": sel, verb: uri}
+            if body:
+                early["body"] = body
+            rules.insert(draw(st.integers(0, k)), early)
     host = svcs[0].get("host", "lib.acme.com") if svcs else "lib.acme.com"
     yaml_ = {"type": "google.api.Service", "config_version": 3, "name": host,
              "apis": [{"name": a} for a in listed], "http": {"rules": rules}}
